@@ -84,6 +84,7 @@ def one_case(run, driver, rng, reuse=False, given=None):
     case = {"election": e.describe(), "estimands": estimands, "reuse_frames": reuse, "turnout_factor_limits": [tf_lo, tf_hi],
             "turnout_outlier_model": bool(outliers)}
     calls = []
+    C.use_repo()
     flagged_by_rule = []   # what the outlier model must flag, recomputed from its own fit (mean + z * population std of |residual|)
     from elexmodel.handlers.data.CombinedData import CombinedDataHandler as CDH
 
